@@ -75,7 +75,8 @@ def r19_1(run):
         if all(isinstance(s, (ast.Raise, ast.Expr)) for s in f.node.body):
             run.ob("%s|not-implemented-raises" % ci.name, True, "%s declares its integral as not implemented (raises)" % ci.name, w)
             continue
-        names = _isinstance_names(f.node)
+        # every argument may be a pandas Series or anything array-like (the case distinction may live in a helper)
+        names = [p_ for p_ in f.params() if p_ not in ("self", "cls")]
         import itertools
         for vals in itertools.product((True, False), repeat=len(names)):
             consts = {"isinstance:" + nm: v for nm, v in zip(names, vals)}
